@@ -24,7 +24,8 @@ import (
 	"github.com/miekg/dns"
 )
 
-var c17bClasses = []string{"valid", "validtc", "casename", "badid", "badname", "badtype", "qd0", "qd2", "none"}
+// (badidtc / badnametc: a reply that is BOTH truncated and not an answer to this query)
+var c17bClasses = []string{"valid", "validtc", "casename", "badid", "badname", "badtype", "qd0", "qd2", "none", "badidtc", "badnametc"}
 
 func c17bReply(req *dns.Msg, class string) *dns.Msg {
 	if class == "none" {
@@ -40,6 +41,10 @@ func c17bReply(req *dns.Msg, class string) *dns.Msg {
 		r.Question[0].Name = strings.ToUpper(r.Question[0].Name)
 	case "badid":
 		r.Id = req.Id + 1
+	case "badidtc":
+		r.Id, r.Truncated = req.Id+1, true
+	case "badnametc":
+		r.Question[0].Name, r.Truncated = "other."+r.Question[0].Name, true
 	case "badname":
 		r.Question[0].Name = "other." + r.Question[0].Name
 	case "badtype":
